@@ -39,7 +39,7 @@ META = dict(
     trusted=['scipy.interpolate.splrep/splev (spline hypothesis `interpolates`)',
              'the harness-side evaluation of mjd_to_date, int(round(1e6*x)) and '
              '(now-start).total_seconds()*1000 by the same Python builtins the code uses'],
-    assumptions=['start_time + last relative time is a representable datetime (start before year 9999)',
+    assumptions=['start_time + actPtTimeOffset is a representable datetime',
                  'an update_status call and a load command do not interleave inside one call'],
 )
 
@@ -182,6 +182,11 @@ class World:
         except (ValueError, OverflowError):
             return None
 
+    def start_room(self, start_bits):
+        """microseconds from that start time to the last representable datetime"""
+        tok = self.start_token(start_bits)
+        return 0 if tok is None else token(_dt.datetime.max) - tok
+
     # -- operations --------------------------------------------------------------------
     def load(self, ld):
         """deliver the command; returns True when the command method raised"""
@@ -264,8 +269,12 @@ class World:
             Clock.now = _dt.datetime(2026, 10, 1, 12, 0, 0) + _dt.timedelta(microseconds=us)
         else:
             # actual_time() = utcnow + time_source_offset + time_offset
-            Clock.now = (ps.start_time + _dt.timedelta(milliseconds=ps.actPtTimeOffset)
-                         + _dt.timedelta(microseconds=us) - ps.time_source_offset - ps.time_offset)
+            try:
+                Clock.now = (ps.start_time + _dt.timedelta(milliseconds=ps.actPtTimeOffset)
+                             + _dt.timedelta(microseconds=us) - ps.time_source_offset - ps.time_offset)
+            except OverflowError:        # a start time at the very end of the calendar: refresh at it
+                Clock.now = (ps.start_time + _dt.timedelta(milliseconds=ps.actPtTimeOffset)
+                             - ps.time_source_offset - ps.time_offset)
 
     def elapsed(self):
         """the double the code hands to bisect_left, computed the way the code computes it"""
@@ -371,8 +380,9 @@ def load_lit(ids, world, ld, raised, o):
     es = '[' + '; '.join('mkE %s %s %s %s %s' % (zlit(t), zlit(ids.b(a)), optlit(microdeg(dbl(a))),
                                                  zlit(ids.b(e)), optlit(microdeg(dbl(e))))
                          for t, a, e in ld.entries) + ']'
-    h = '(mkH %s %s %s %s %s %s)' % (zlit(ld.cnt), zlit(ld.param), zlit(ld.interp), zlit(ld.track),
-                                     zlit(ld.mode), optlit(ids.t(world.start_token(ld.start_bits))))
+    h = '(mkH %s %s %s %s %s %s %s)' % (zlit(ld.cnt), zlit(ld.param), zlit(ld.interp), zlit(ld.track),
+                                        zlit(ld.mode), optlit(ids.t(world.start_token(ld.start_bits))),
+                                        zlit(world.start_room(ld.start_bits)))
     return 'OLoad %s %s %s %s' % (h, es, blit(raised), obs_lit(ids, o, True))
 
 
@@ -685,6 +695,8 @@ def spec_acceptable(ps, world, ld):
         return False, None
     if tok is None:
         return True, 'new_table_unrepresentable_start_time'
+    if whole and whole[-1] * 1000 > world.start_room(ld.start_bits):
+        return True, 'new_table_unrepresentable_start_time'      # the end of the track is not a date
     if any(microdeg(dbl(a)) is None or microdeg(dbl(e)) is None for _, a, e in ld.entries):
         return True, 'coordinate_not_int32_microdegrees'
     if len(whole) < 4:
